@@ -8,20 +8,22 @@ exhaustion", slow workers and a slow caller are all the same thing in an interle
 for a while; flow control (`run_event` cleared while the reorder buffer is full) is part of the model.
 
 * `imap_no_deadlock`: in every reachable state in which the caller's program (enter, any list of calls, exit) is not over,
-  some thread can move — under `WellCfg` (≥ 1 worker, result bound ≥ 1, quotas ≥ 1 only with a factory pool), `NoFaults`
-  and `ExitCap`.
-* `imap_terminates`: an explicit bound on the length of *every* schedule of a configuration (no `ExitCap` needed).
+  some thread can move — under `WellCfg` (≥ 1 worker, result bound ≥ 1, quotas ≥ 1 only with a factory pool) and
+  `NoFaults`; D19 repaired: no hypothesis on the work-queue bound (the former `ExitCap`) is needed any more.
+* `imap_terminates`: an explicit bound on the length of *every* schedule of a configuration.
 * `imap_maximal_final`: hence every maximal execution ends with the caller finished.
-* `exit_can_block`: outside `ExitCap` the block in `__exit__` is reachable (D19, a recorded known finding): a concrete
-  56-step schedule of a factory pool with 2 workers, quota 1, work-queue bound 1.
+* `exit_unblocked`: D19 repaired: the concrete 56-step schedule of a factory pool with 2 workers, quota 1, work-queue
+  bound 1 that used to end with the caller blocked in `__exit__` for good (second stop order on a full queue, every worker
+  gone) goes on, with one more step of the consumer, to the caller being done.
+* `exit_skip_all_exited`: the loop of stop orders is left early (full queue) only when every worker ever created has exited.
 -/
 namespace WindVerif.C02
 open WindVerif.Pool
 
 /-- no deadlock: in every reachable state in which the caller's program (enter, all its calls, exit) is not over, some
 thread can move — the consumer is never left blocked on a result that will not come, the feeder never on a full queue
-nobody drains, `__exit__` never on its stop orders (under `ExitCap`) -/
-theorem imap_no_deadlock (cfg : Cfg) (hw : WellCfg cfg) (hf : NoFaults cfg) (hx : ExitCap cfg) (s : St) (h : Reach cfg s)
+nobody drains, `__exit__` never on its stop orders (D19 repaired: whatever the bound of the work queue) -/
+theorem imap_no_deadlock (cfg : Cfg) (hw : WellCfg cfg) (hf : NoFaults cfg) (s : St) (h : Reach cfg s)
     (hnd : s.cpc ≠ .done) : ∃ t, (step s t).isSome := by
   first | exact WindVerif.Pool.imap_no_deadlock .. | (apply WindVerif.Pool.imap_no_deadlock <;> assumption)
 
@@ -30,17 +32,24 @@ theorem imap_terminates (cfg : Cfg) (hw : WellCfg cfg) (hf : NoFaults cfg) :
   first | exact WindVerif.Pool.imap_terminates .. | (apply WindVerif.Pool.imap_terminates <;> assumption)
 
 /-- hence every maximal execution (one that cannot be extended) ends with the caller finished -/
-theorem imap_maximal_final (cfg : Cfg) (hw : WellCfg cfg) (hf : NoFaults cfg) (hx : ExitCap cfg) (sched : List Tid) (s : St)
+theorem imap_maximal_final (cfg : Cfg) (hw : WellCfg cfg) (hf : NoFaults cfg) (sched : List Tid) (s : St)
     (h : run (init cfg) sched = some s) (hmax : ∀ t, step s t = none) : s.cpc = .done := by
   first | exact WindVerif.Pool.imap_maximal_final .. | (apply WindVerif.Pool.imap_maximal_final <;> assumption)
 
-theorem exit_can_block : ∃ sched s, run (init d19Cfg) sched = some s ∧ s.cpc ≠ .done ∧ ∀ t, step s t = none := by
-  first | exact WindVerif.Pool.exit_can_block .. | (apply WindVerif.Pool.exit_can_block <;> assumption)
+/-- D19 repaired: the schedule that used to end in a blocked `__exit__` (configuration `d19Cfg`) reaches `done` -/
+theorem exit_unblocked : ∃ sched s, run (init d19Cfg) sched = some s ∧ s.cpc = .done := by
+  first | exact WindVerif.Pool.exit_unblocked .. | (apply WindVerif.Pool.exit_unblocked <;> assumption)
 
-/-- non-vacuity: the default configuration (work-queue bound = number of workers) satisfies the hypotheses -/
-example : WellCfg ⟨2, some 2, none, false, none, false, [⟨3, true⟩], [], []⟩ ∧
-    ExitCap ⟨2, some 2, none, false, none, false, [⟨3, true⟩], [], []⟩ ∧
-    ExitCap ⟨3, some 1, some 1, false, none, false, [⟨3, true⟩], [], []⟩ ∧ ¬ ExitCap d19Cfg := by
-  unfold WellCfg ExitCap d19Cfg; decide
+/-- the loop of stop orders is left early only when nobody is left: a step of the consumer at a stop order on a full work
+queue ends `__exit__`, and every worker ever created has exited -/
+theorem exit_skip_all_exited (cfg : Cfg) (s s' : St) (h : Reach cfg s) (i : Nat) (hpc : s.cpc = .exitPut i)
+    (hfull : capFull s.cfg.workCap s.workQ = true) (hs : step s .c = some s') : s'.cpc = .done ∧ AllExited s' := by
+  first | exact WindVerif.Pool.exit_skip_all_exited .. | (apply WindVerif.Pool.exit_skip_all_exited <;> assumption)
+
+/-- non-vacuity: the default configuration (work-queue bound = number of workers) satisfies the hypotheses, and so does the
+configuration of the former D19 (work-queue bound below the number of workers of a factory pool) -/
+example : WellCfg ⟨2, some 2, none, false, none, false, [⟨3, true⟩], [], []⟩ ∧ WellCfg d19Cfg ∧
+    NoFaults ⟨2, some 2, none, false, none, false, [⟨3, true⟩], [], []⟩ ∧ NoFaults d19Cfg := by
+  unfold WellCfg NoFaults d19Cfg; decide
 
 end WindVerif.C02
